@@ -21,6 +21,7 @@ import (
 	"github.com/nspcc-dev/neo-go/pkg/core/mpt"
 	"github.com/nspcc-dev/neo-go/pkg/core/storage"
 	"github.com/nspcc-dev/neo-go/pkg/crypto/hash"
+	nio "github.com/nspcc-dev/neo-go/pkg/io"
 	"github.com/nspcc-dev/neo-go/pkg/util"
 )
 
@@ -35,7 +36,7 @@ type c10KV struct {
 }
 
 type c10Op struct {
-	Op string  `json:"op"` // put del batch flush collapse reopen get getall proofall
+	Op string  `json:"op"` // put del batch flush collapse reopen get getall proofall proof
 	K  string  `json:"k,omitempty"`
 	V  string  `json:"v,omitempty"`
 	KV []c10KV `json:"kv,omitempty"`
@@ -76,6 +77,9 @@ type c10State struct {
 	idx     uint32
 	// set when a read made while executing the history disagreed with the content
 	readNote string
+	// recount the stored reference counters after every Flush (reference-counting modes)
+	recount bool
+	rcNote  string
 }
 
 func c10Root(tr *mpt.Trie) []byte { return tr.StateRoot().BytesBE() }
@@ -104,12 +108,78 @@ func c10Fresh(content map[string][]byte, reverse bool) []byte {
 func (s *c10State) flush() {
 	s.tr.Flush(s.idx)
 	s.idx++
+	if s.recount && s.mode.RC() && s.rcNote == "" {
+		s.rcNote = s.recountRefs()
+	}
+}
+
+// recountRefs: an independent walk from the current root over the RAW store records (no Trie involved): in the
+// reference-counting modes the stored counter of every node must equal the number of its occurrences in the
+// trie, every occurring node must be stored and active, and (ModeLatest) nothing else may be stored.
+func (s *c10State) recountRefs() string {
+	occ := map[util.Uint256]int{}
+	note := ""
+	var walk func(h util.Uint256)
+	walk = func(h util.Uint256) {
+		if note != "" {
+			return
+		}
+		occ[h]++
+		if occ[h] > 1 {
+			// the sub-trie below was counted once per occurrence already through the first visit's multiplicity
+		}
+		data, err := s.st.Get(append([]byte{byte(storage.DataMPT)}, h[:]...))
+		if err != nil || len(data) < 6 {
+			note = fmt.Sprintf("node %s occurs in the trie but has no record in the store", h.StringBE())
+			return
+		}
+		var n mpt.NodeObject
+		r := nio.NewBinReaderFromBuf(data[:len(data)-5])
+		n.DecodeBinary(r)
+		if r.Err != nil {
+			note = fmt.Sprintf("record of node %s does not decode: %v", h.StringBE(), r.Err)
+			return
+		}
+		for ch, paths := range mpt.GetChildrenPaths(nil, n.Node) {
+			for range paths {
+				walk(ch)
+			}
+		}
+	}
+	if root := s.tr.StateRoot(); !root.Equals(util.Uint256{}) {
+		walk(root)
+	}
+	if note != "" {
+		return note
+	}
+	seen := map[util.Uint256]bool{}
+	s.st.Seek(storage.SeekRange{Prefix: []byte{byte(storage.DataMPT)}}, func(k, v []byte) bool {
+		h, err := util.Uint256DecodeBytesBE(k[1:])
+		if err != nil || len(v) < 6 {
+			note = fmt.Sprintf("malformed record %x", k)
+			return false
+		}
+		seen[h] = true
+		active := v[len(v)-5] == 1
+		cnt := int(uint32(v[len(v)-4]) | uint32(v[len(v)-3])<<8 | uint32(v[len(v)-2])<<16 | uint32(v[len(v)-1])<<24)
+		want := occ[h]
+		switch {
+		case want > 0 && !active:
+			note = fmt.Sprintf("node %s occurs %d time(s) in the trie but its record is inactive", h.StringBE(), want)
+		case want > 0 && cnt != want:
+			note = fmt.Sprintf("node %s occurs %d time(s) in the trie but its stored counter is %d", h.StringBE(), want, cnt)
+		case want == 0 && active:
+			note = fmt.Sprintf("node %s does not occur in the trie but its record is active (counter %d)", h.StringBE(), cnt)
+		}
+		return note == ""
+	})
+	return note
 }
 
 // c10Exec runs the history; the returned string is a non-empty note when the direct specification check
 // (root == root of a fresh trie built from the content) fails somewhere.
 func c10Exec(in c10Input, checkFresh bool) (*c10State, string) {
-	s := &c10State{mode: mpt.TrieMode(in.Mode), content: map[string][]byte{}}
+	s := &c10State{mode: mpt.TrieMode(in.Mode), content: map[string][]byte{}, recount: checkFresh}
 	s.st = storage.NewMemCachedStore(storage.NewMemoryStore())
 	s.tr = mpt.NewTrie(nil, s.mode, s.st)
 	note, rnote := "", ""
@@ -181,6 +251,10 @@ func c10Exec(in c10Input, checkFresh bool) (*c10State, string) {
 			if n := s.readAll(c10Keys(in.Ops)); n != "" && rnote == "" {
 				rnote = fmt.Sprintf("op %d: %s", i, n)
 			}
+		case "proof": // GetProof (+ VerifyProof) of one key in the middle of the history
+			if n := s.proofOne(unhx(o.K)); n != "" && rnote == "" {
+				rnote = fmt.Sprintf("op %d: %s", i, n)
+			}
 		case "proofall": // GetProof + VerifyProof for every stored key
 			if n := s.proofAll(); n != "" && rnote == "" {
 				rnote = fmt.Sprintf("op %d: %s", i, n)
@@ -243,6 +317,36 @@ func (s *c10State) readOne(k []byte) string {
 	return ""
 }
 
+// proofOne: GetProof succeeds exactly for the stored keys and the proof verifies to the stored value
+func (s *c10State) proofOne(k []byte) string {
+	if len(k) > mpt.MaxKeyLength {
+		return ""
+	}
+	var pr [][]byte
+	var err error
+	if p := catch(func() { pr, err = s.tr.GetProof(k) }); p != "" {
+		return fmt.Sprintf("GetProof(%x) panicked: %s", k, p)
+	}
+	want, ok := s.content[string(k)]
+	if !ok {
+		if err == nil {
+			return fmt.Sprintf("GetProof(%x) returned a proof, the key is not stored", k)
+		}
+		return ""
+	}
+	if err != nil {
+		return fmt.Sprintf("GetProof(%x) of a stored key failed: %v", k, err)
+	}
+	v, vok, note := c10Verify(s.tr.StateRoot().BytesBE(), k, pr)
+	if note != "" {
+		return note
+	}
+	if !vok || !bytes.Equal(v, want) {
+		return fmt.Sprintf("VerifyProof(root, %x, GetProof(%x)) = (%x, %v), stored value is %x", k, k, v, vok, want)
+	}
+	return ""
+}
+
 // proofAll: the proof of every stored key must exist and verify to the stored value under the current root
 func (s *c10State) proofAll() string {
 	keys := make([]string, 0, len(s.content))
@@ -292,7 +396,7 @@ func c10Keys(ops []c10Op) [][]byte {
 	}
 	for _, o := range ops {
 		switch o.Op {
-		case "put", "del", "get":
+		case "put", "del", "get", "proof":
 			add(o.K)
 		case "batch":
 			for _, e := range o.KV {
@@ -648,6 +752,9 @@ func c10RunCase(co *caseOut, kind string, in c10Input) {
 	}
 	if s.readNote != "" && (kind == "root" || kind == "reads") {
 		co.violation("reads", s.readNote, in, nil)
+	}
+	if s.rcNote != "" && kind == "modes" {
+		co.violation("modes", fmt.Sprintf("storage mode %d: after a Flush the stored reference counters disagree with the trie: %s", in.Mode, s.rcNote), in, nil)
 	}
 	if s.readNote != "" && kind == "modes" {
 		co.violation("modes", fmt.Sprintf("storage mode %d: %s", in.Mode, s.readNote), in, nil)
@@ -1195,6 +1302,64 @@ func c10EpochHistory(r *rng, keys [][]byte) []c10Op {
 	return ops
 }
 
+// free interleaving for the reference-counting modes: a tiny value alphabet and equal key suffixes (shared leaves and
+// shared extension+leaf sub-tries), reads (Get, GetProof) anywhere between the updates and the Flush, on tries that
+// are partially collapsed, Flush NOT always followed by Collapse (flush; flush; ...; collapse), reopen at the end
+func c10SharedHistory(r *rng, keys [][]byte) []c10Op {
+	a, b := byte(r.intn(16))<<4|byte(r.intn(16)), byte(r.intn(16))<<4|byte(r.intn(16))
+	suf := [][]byte{{0x11}, {0x11, 0x22}, {byte(r.intn(4))}}
+	var pool [][]byte
+	for _, p := range [][]byte{{a}, {b}, {a, b}} {
+		pool = append(pool, p)
+		for _, x := range suf {
+			pool = append(pool, append(bytes.Clone(p), x...))
+		}
+	}
+	pool = append(pool, pick(r, keys))
+	vals := [][]byte{{1}, {1}, {2}, {}}
+	var ops []c10Op
+	n := 8 + r.intn(30)
+	for len(ops) < n {
+		c := r.intn(100)
+		k := pick(r, pool)
+		switch {
+		case c < 28:
+			ops = append(ops, c10Op{Op: "put", K: hx(k), V: hx(pick(r, vals))})
+		case c < 42:
+			ops = append(ops, c10Op{Op: "del", K: hx(k)})
+		case c < 48:
+			var kv []c10KV
+			used := map[string]bool{}
+			for i := 0; i < 2+r.intn(3); i++ {
+				k2 := pick(r, pool)
+				if used[string(k2)] {
+					continue
+				}
+				used[string(k2)] = true
+				if r.chance(35) {
+					kv = append(kv, c10KV{K: hx(k2)})
+				} else {
+					hv := hx(pick(r, vals))
+					kv = append(kv, c10KV{K: hx(k2), V: &hv})
+				}
+			}
+			ops = append(ops, c10Op{Op: "batch", KV: kv})
+		case c < 68:
+			ops = append(ops, c10Op{Op: "get", K: hx(k)})
+		case c < 76:
+			ops = append(ops, c10Op{Op: "proof", K: hx(k)})
+		case c < 90:
+			ops = append(ops, c10Op{Op: "flush"})
+		case c < 96:
+			ops = append(ops, c10Op{Op: "collapse", D: r.intn(3)})
+		default:
+			ops = append(ops, c10Op{Op: "reopen"})
+		}
+	}
+	ops = append(ops, c10Op{Op: "flush"}, c10Op{Op: "reopen"}, c10Op{Op: "getall"}, c10Op{Op: "proofall"})
+	return ops
+}
+
 // c10ModeRuns: the history in the reference-counting storage modes (and ModeAll), with reload, re-reads, proofs
 // and further updates at the end
 func c10ModeRuns(co *caseOut, r *rng, keys [][]byte, base []c10Op) {
@@ -1203,9 +1368,13 @@ func c10ModeRuns(co *caseOut, r *rng, keys [][]byte, base []c10Op) {
 	tail = append(tail, c10Op{Op: "flush"}, c10Op{Op: "reopen"}, c10Op{Op: "getall"}, c10Op{Op: "proofall"})
 	general := append(append([]c10Op{}, base...), tail...)
 	epochs := c10EpochHistory(r, keys)
+	shared := [][]c10Op{c10SharedHistory(r, keys), c10SharedHistory(r, keys), c10SharedHistory(r, keys)}
 	for _, m := range []mpt.TrieMode{mpt.ModeLatest, mpt.ModeGC} {
 		c10Run(co, "modes", c10Input{Mode: int(m), Ops: epochs})
 		c10Run(co, "modes", c10Input{Mode: int(m), Ops: general})
+		for _, sh := range shared {
+			c10Run(co, "modes", c10Input{Mode: int(m), Ops: sh})
+		}
 	}
 	if r.chance(25) {
 		c10Run(co, "modes", c10Input{Mode: int(mpt.ModeAll), Ops: epochs})
